@@ -70,6 +70,8 @@ type c04Target struct {
 	evict bool
 }
 
+var c04Reloads atomic.Int64
+
 func c04RunCase(r *hx.Run, w *W, ps *plans, c c04Case, tg c04Target, rnd *rand.Rand) {
 	a := ans{Kind: "cacheable", T: c.T, Age: c.Age, SMax: c.SMax, DateSkew: c.DateSkew}
 	if c.ConstETag {
@@ -86,6 +88,21 @@ func c04RunCase(r *hx.Run, w *W, ps *plans, c c04Case, tg c04Target, rnd *rand.R
 	var trace []interface{}
 	for si, st := range c.Steps {
 		now := w.Clock.Advance(st.Advance)
+		if si > 0 && rnd.Intn(8) == 0 && c04Reloads.Add(1) <= 300 { // (capped: every reload costs descriptors, see C07)
+			// a reload that changes restart-only options of the surviving caches (hit-for-pass period and
+			// size): whatever it does with them, the entries keep their lifetimes
+			for ci := range w.Cfg.Caches {
+				if w.Cfg.Caches[ci].HitForPass == "5m" {
+					w.Cfg.Caches[ci].HitForPass = "7m"
+					w.Cfg.Caches[ci].Size += 8
+				} else {
+					w.Cfg.Caches[ci].HitForPass = "5m"
+					w.Cfg.Caches[ci].Size -= 8
+				}
+			}
+			w.apply(r)
+			r.Add("reloads_changing_cache_options_inside_a_history", 1)
+		}
 		if tg.evict && rnd.Intn(2) == 0 {
 			// push the key out of the tiny LRU: the next lookup reloads the record from the store
 			for k := 0; k < 24; k++ {
@@ -343,7 +360,7 @@ func c04Concurrent(r *hx.Run, w *W, ps *plans, rnd *rand.Rand, tickPerRead bool)
 }
 
 func c04(r *hx.Run) {
-	r.Rule = "sequential: generated histories (one in three with HEAD requests on the same URI interleaved - their own key, entry and lifetime; half of them from an origin whose own Date header is 45 s or a day away from the real clock; T from {1,2,3,5,10,60,3600,86400,2^31-1}, origin Age none/0/1/T-1, 6-15 steps of (advance d in {0,1,L-1,L,L+1,2L+3,L/2}, concurrent burst of 1-8) with the clock moved only at quiescence, replayed against the entry model (a hit must be the current version inside its lifetime with the right Age, an expired entry must be refetched exactly once and replaced; a premature refetch is only counted - that is single flight, C01); directed: clock tick between lookup and Age(); concurrent: 16 clients under a ticking virtual clock judged by interval-sound bounds. Non-trivial = history with >=2 epochs that probed the exact expiry second or the one after; distinct = case spec."
+	r.Rule = "sequential: generated histories (one in three with HEAD requests on the same URI interleaved - their own key, entry and lifetime; one step in eight preceded by a reload that changes the caches' restart-only options; half of them from an origin whose own Date header is 45 s or a day away from the real clock; T from {1,2,3,5,10,60,3600,86400,2^31-1}, origin Age none/0/1/T-1, 6-15 steps of (advance d in {0,1,L-1,L,L+1,2L+3,L/2}, concurrent burst of 1-8) with the clock moved only at quiescence, replayed against the entry model (a hit must be the current version inside its lifetime with the right Age, an expired entry must be refetched exactly once and replaced; a premature refetch is only counted - that is single flight, C01); directed: clock tick between lookup and Age(); concurrent: 16 clients under a ticking virtual clock judged by interval-sound bounds. Non-trivial = history with >=2 epochs that probed the exact expiry second or the one after; distinct = case spec."
 	r.Assume = []string{"time is pike's only clock seam cache.nowUnix, replaced by a virtual clock (hook)", "memory-only and store targets: no eviction (cache 100000 >> keys); the tiny-cache target evicts on purpose and relies on its (reliable, TTL-ignoring) in-memory store, so a fresh entry is still a hit after reload"}
 	rnd := rand.New(rand.NewSource(r.Seed))
 	ports := hx.FreePorts(3)
